@@ -1,6 +1,7 @@
 mod compat;
 mod corrupt;
 mod crash;
+mod custom;
 mod deep;
 mod disk;
 mod exec;
